@@ -112,6 +112,33 @@ func (e *Engine) specCall(env *SpecEnv, x *SExpr) Value {
 			base = env.old.nextRefTerm()
 		}
 		return And(Le(base, r), Lt(r, env.st.nextRefTerm()))
+	case "other_arrays_unchanged":
+		// other_arrays_unchanged(s): every backing array of s's element type that
+		// existed at function entry, other than the array of the slice value s, has
+		// the contents it had at entry (a frame fact usable as a loop invariant)
+		need(1)
+		sv, ok := e.evalSpec(env, args[0]).(SliceV)
+		if !ok || env.old == nil {
+			sfail("other_arrays_unchanged needs a slice (and an entry state)")
+		}
+		r := T("r!oa", SInt)
+		var cs []Term
+		for _, ks := range e.leafKeys(typeKey(arrRootT(sv.Elem))+"[]", sv.Elem, 1) {
+			e.noteHeapKey(ks.Key, ks.Sort)
+			now := env.st.heapArr(ks.Key, ks.Sort)
+			was := env.old.heapArr(ks.Key, ks.Sort)
+			cs = append(cs, Forall([]Term{r}, Implies(And(Lt(IntLit(0), r), Lt(r, env.old.nextRefTerm()), Neq(r, sv.Arr)),
+				Eq(Select(now, r), Select(was, r)))))
+		}
+		return And(cs...)
+	case "arrof":
+		// arrof(s): the identity of the backing array of a slice
+		need(1)
+		sv, ok := e.evalSpec(env, args[0]).(SliceV)
+		if !ok {
+			sfail("arrof needs a slice")
+		}
+		return sv.Arr
 	case "allocated":
 		need(1)
 		r := e.refOf(e.evalSpec(env, args[0]))
@@ -304,6 +331,136 @@ func (e *Engine) specCall(env *SpecEnv, x *SExpr) Value {
 			flat = append(flat, e.flat(e.evalSpec(env, a))...)
 		}
 		return e.eventTerm(nm, flat)
+	case "valsof":
+		// valsof(m): the value function of a map with scalar values, as an amap
+		need(1)
+		mv, ok := e.evalSpec(env, args[0]).(MapV)
+		if !ok {
+			sfail("valsof needs a map")
+		}
+		vks := e.mapValKS(mv.T)
+		if len(vks) != 1 {
+			sfail("valsof: map values must be scalars")
+		}
+		e.noteHeapKey(vks[0].Key, vks[0].Sort)
+		return Select(env.st.heapArr(vks[0].Key, vks[0].Sort), mv.Ref)
+	case "elemset":
+		// elemset(s): the set of elements of a slice with scalar elements, as a
+		// value: elems(contents, off, len).  Membership is axiomatised with an
+		// explicit position witness (no quantifier alternation):
+		//   0 <= p < n                 ==>  elems(a,o,n)[a[ix(o,p)]]
+		//   elems(a,o,n)[x]            ==>  0 <= pos(a,o,n,x) < n  &&  a[ix(o,pos(a,o,n,x))] == x
+		need(1)
+		sv, ok := e.evalSpec(env, args[0]).(SliceV)
+		if !ok {
+			sfail("elemset needs a slice")
+		}
+		es, ok := e.scalarSort(sv.Elem)
+		if !ok {
+			sfail("elemset: scalar element type expected")
+		}
+		key := typeKey(arrRootT(sv.Elem)) + "[]"
+		hs := arrSortFor(1, es)
+		e.noteHeapKey(key, hs)
+		inner := ArrSort(SInt, es)
+		setS := ArrSort(es, SBool)
+		tag := es.String()
+		f := e.ctx.Func("elems:"+tag, []*Sort{inner, SInt, SInt}, setS)
+		pf := e.ctx.Func("elempos:"+tag, []*Sort{inner, SInt, SInt, es}, SInt)
+		a, o, n, pp, x := T("a!es", inner), T("o!es", SInt), T("n!es", SInt), T("p!es", SInt), T("x!es", es)
+		ap := T("("+f+" a!es o!es n!es)", setS)
+		el := Select(a, T("(ix o!es p!es)", SInt))
+		e.ctx.Axiom("elems:in:"+tag, []string{"elems:" + tag}, ForallPat([]Term{a, o, n, pp}, [][]Term{{ap, el}},
+			Implies(And(Le(IntLit(0), pp), Lt(pp, n)), Select(ap, el))))
+		pos := T("("+pf+" a!es o!es n!es x!es)", SInt)
+		e.ctx.Axiom("elems:pos:"+tag, []string{"elems:" + tag}, ForallPat([]Term{a, o, n, x}, [][]Term{{Select(ap, x)}},
+			Implies(Select(ap, x), And(Le(IntLit(0), pos), Lt(pos, n), Eq(Select(a, T("(ix o!es "+pos.S+")", SInt)), x)))))
+		return T("("+f+" "+Select(env.st.heapArr(key, hs), sv.Arr).S+" "+sv.Off.S+" "+sv.Len.S+")", setS)
+	case "seenset":
+		// seenset(): the set of keys the map iterator of the current loop has yielded
+		if env.st == nil {
+			sfail("seenset outside of a loop invariant")
+		}
+		ss, ok := e.currentSeen(env)
+		if !ok {
+			sfail("seenset: no map iterator in scope")
+		}
+		return ss
+	case "seteq":
+		// seteq(a, b): the two sets have the same members (pointwise, with
+		// membership terms as triggers; no reliance on array extensionality)
+		need(2)
+		a, b := e.evalSpecTerm(env, args[0]), e.evalSpecTerm(env, args[1])
+		if a.Sort.K != KArray || !a.Sort.Eq(b.Sort) {
+			sfail("seteq needs two sets of the same type")
+		}
+		*env.qn++
+		x := T(fmt.Sprintf("x!se%d", *env.qn), a.Sort.Key)
+		// smark(s) is true for every s; the two conjuncts make the set terms
+		// ground terms of the query (triggers of the membership axioms)
+		mk := e.ctx.Func("smark:"+a.Sort.String(), []*Sort{a.Sort}, SBool)
+		sv := T("s!sm", a.Sort)
+		e.ctx.Axiom("smark:"+a.Sort.String(), []string{"smark:" + a.Sort.String()}, ForallPat([]Term{sv}, [][]Term{{T("(" + mk + " s!sm)", SBool)}}, T("("+mk+" s!sm)", SBool)))
+		return And(T("("+mk+" "+a.S+")", SBool), T("("+mk+" "+b.S+")", SBool),
+			ForallPat([]Term{x}, [][]Term{{Select(a, x)}, {Select(b, x)}}, Iff(Select(a, x), Select(b, x))))
+	case "emptyset":
+		// emptyset(s): the empty set of the same type as the set s
+		need(1)
+		a := e.evalSpecTerm(env, args[0])
+		if a.Sort.K != KArray || a.Sort.Val.K != KBool {
+			sfail("emptyset needs a set")
+		}
+		return ConstArray(a.Sort, TFalse)
+	case "setif":
+		// setif(c, s): s if c holds, the empty set otherwise (an uninterpreted
+		// function defined pointwise, so that no ite appears inside patterns)
+		need(2)
+		c, a := e.evalSpecBool(env, args[0]), e.evalSpecTerm(env, args[1])
+		if a.Sort.K != KArray || a.Sort.Val.K != KBool {
+			sfail("setif(c, s) needs a set")
+		}
+		f := e.ctx.Func("setif:"+a.Sort.String(), []*Sort{SBool, a.Sort}, a.Sort)
+		cc, x, k := T("c!si", SBool), T("x!si", a.Sort), T("k!si", a.Sort.Key)
+		ap := T("("+f+" "+cc.S+" "+x.S+")", a.Sort)
+		e.ctx.Axiom("setif:"+a.Sort.String(), []string{"setif:" + a.Sort.String()}, ForallPat([]Term{cc, x, k}, [][]Term{{Select(ap, k)}}, Eq(Select(ap, k), And(cc, Select(x, k)))))
+		return T("("+f+" "+c.S+" "+a.S+")", a.Sort)
+	case "sunion":
+		// sunion(a, b): set union (uninterpreted, defined pointwise by an axiom)
+		need(2)
+		a, b := e.evalSpecTerm(env, args[0]), e.evalSpecTerm(env, args[1])
+		if a.Sort.K != KArray || !a.Sort.Eq(b.Sort) {
+			sfail("sunion needs two sets of the same type")
+		}
+		f := e.ctx.Func("sunion:"+a.Sort.String(), []*Sort{a.Sort, a.Sort}, a.Sort)
+		x, y, k := T("x!su", a.Sort), T("y!su", a.Sort), T("k!su", a.Sort.Key)
+		ap := T("("+f+" "+x.S+" "+y.S+")", a.Sort)
+		e.ctx.Axiom("sunion:"+a.Sort.String(), []string{"sunion:" + a.Sort.String()}, ForallPat([]Term{x, y, k}, [][]Term{{Select(ap, k)}}, Eq(Select(ap, k), Or(Select(x, k), Select(y, k)))))
+		return T("("+f+" "+a.S+" "+b.S+")", a.Sort)
+	case "override":
+		// override(v0, d1, v1): the function that is v1 on d1 and v0 elsewhere
+		need(3)
+		v0, d1, v1 := e.evalSpecTerm(env, args[0]), e.evalSpecTerm(env, args[1]), e.evalSpecTerm(env, args[2])
+		if v0.Sort.K != KArray || !v0.Sort.Eq(v1.Sort) || d1.Sort.K != KArray {
+			sfail("override(v0, d1, v1): v0, v1 functions of the same type, d1 a set")
+		}
+		f := e.ctx.Func("override:"+v0.Sort.String(), []*Sort{v0.Sort, d1.Sort, v0.Sort}, v0.Sort)
+		x, d, y, k := T("x!ov", v0.Sort), T("d!ov", d1.Sort), T("y!ov", v0.Sort), T("k!ov", v0.Sort.Key)
+		ap := T("("+f+" "+x.S+" "+d.S+" "+y.S+")", v0.Sort)
+		e.ctx.Axiom("override:"+v0.Sort.String(), []string{"override:" + v0.Sort.String()}, ForallPat([]Term{x, d, y, k}, [][]Term{{Select(ap, k)}}, Eq(Select(ap, k), Ite(Select(d, k), Select(y, k), Select(x, k)))))
+		return T("("+f+" "+v0.S+" "+d1.S+" "+v1.S+")", v0.Sort)
+	case "restrict":
+		// restrict(d, v): v on d and the zero value elsewhere (a canonical form:
+		// two maps with the same entries have the same restrict(domof, valsof))
+		need(2)
+		d, v := e.evalSpecTerm(env, args[0]), e.evalSpecTerm(env, args[1])
+		if d.Sort.K != KArray || v.Sort.K != KArray {
+			sfail("restrict(d, v): d a set, v a function")
+		}
+		f := e.ctx.Func("restrict:"+v.Sort.String(), []*Sort{d.Sort, v.Sort}, v.Sort)
+		dd, x, k := T("d!rs", d.Sort), T("x!rs", v.Sort), T("k!rs", v.Sort.Key)
+		ap := T("("+f+" "+dd.S+" "+x.S+")", v.Sort)
+		e.ctx.Axiom("restrict:"+v.Sort.String(), []string{"restrict:" + v.Sort.String()}, ForallPat([]Term{dd, x, k}, [][]Term{{Select(ap, k)}}, Eq(Select(ap, k), Ite(Select(dd, k), Select(x, k), ZeroOf(v.Sort.Val)))))
+		return T("("+f+" "+d.S+" "+v.S+")", v.Sort)
 	case "dom":
 		need(1)
 		mv, ok := e.evalSpec(env, args[0]).(MapV)
